@@ -94,10 +94,15 @@ def reStable (g : BGeom) : Re → Bool
   | .same g' => Geom.beq g g'
   | _ => false
 
-/-- For a Geometry VALUE holding non-finite numbers (impossible in JSON text) the decoded geometry
-has no GeoJSON encoding; then the encoder must say so with an error. -/
-def reStableValue (g : BGeom) (r : Re) : Bool :=
-  if jsonEncodable g then reStable g r else match r with | .encErr => true | _ => false
+/-- For a Geometry VALUE the clause is demanded in full — a decoded value that cannot be re-encoded
+violates it — with ONE exception keyed on the INPUT, not on the result: when the caller's value
+itself holds a non-finite float64 leaf (NaN/±Inf, which no JSON text can carry: garbage in), the
+decoded geometry may be non-finite and then the encoder must answer with an error. A decoder that
+MANUFACTURES a non-finite coordinate from an input without one (e.g. from the number text `1e400`
+carried as a json.Number) gets no such excuse. -/
+def reStableValue (inputHasNonFiniteFloat : Bool) (g : BGeom) (r : Re) : Bool :=
+  if jsonEncodable g then reStable g r
+  else inputHasNonFiniteFloat && (match r with | .encErr => true | _ => false)
 
 /-! ### encodings that are alive at the same time
 
